@@ -27,34 +27,53 @@
 (***************************************************************************)
 EXTENDS HttpFramingContract
 
-CONSTANTS SLKinds,      \* status-line kinds used (subset of DOMAIN SLTab)
-          HdrKinds,     \* non-Content-Length header kinds used (subset of DOMAIN HTab)
-          MaxHdrs,      \* max number of those per response
-          CLVals,       \* Content-Length value codes: n >= 0 numeric, GARB, HUGE, OVF
-          CLNames,      \* spelling of the name: 0 "Content-Length", 1 "content-length"
-          CLDups,       \* allowed <<first, second>> value pairs of a duplicated Content-Length
-          MaxBody,      \* body bytes sent: 0..MaxBody
-          BodyByPos,    \* TRUE: i-th body byte is 96+i (a, b, c, ...); FALSE: any byte of BodyAlpha
-          BodyAlpha,
-          FragAll,      \* token types cut at every byte while fewer than FragDepth header lines were
-          FragDepth,    \*   sent; all other tokens are cut after 1, L-2 and L-1 bytes (L-1: between CR and LF)
-          StallSL,      \* stall is explored in streams with these status-line kinds
-          StallFrags,   \* TRUE: stall also after partial tokens
-          Conforming, Others
+CONSTANTS Fams,         \* the families of streams explored in this run (parameter records, see FamsQuick below)
+          Conforming,   \* client designs that must satisfy the contract
+          Others        \* client designs the contract must reject somewhere (kill matrix)
 
 GARB == -1      \* "abc"
 HUGE == -2      \* "4294967296"  (more than any body; 2^32 does not fit TLC's ints)
 OVF  == -3      \* "99999999999999999999" (does not fit u64): not pinned, see clbad
 HugeNum == 1000000
 
-\* constant values the cfg files substitute (cfg syntax has no tuples / negative literals)
-CLValsQuick == {0, 1, 2, 3, GARB, HUGE, OVF}
-CLValsThorough == {0, 1, 2, 3, 4, 5, GARB, HUGE, OVF}
-CLValsBodies == {0, 2, 4, 5}
-CLValsBodiesQuick == {2, 4, 5}
-DupsQuick == {<<2, 2>>, <<1, 2>>, <<2, 1>>}
-DupsThorough == {<<2, 2>>, <<1, 2>>, <<2, 1>>, <<3, 4>>, <<4, 3>>, <<0, 0>>, <<0, 3>>, <<2, GARB>>, <<GARB, 2>>, <<HUGE, 1>>}
-NoDups == {}
+\* A family fixes the grammar bounds.  Fields:
+\*   sl     status-line kinds (subset of DOMAIN SLTab)      hk    other header kinds (subset of DOMAIN HTab)
+\*   maxh   max number of those per response                cl    Content-Length value codes: n >= 0, GARB, HUGE, OVF
+\*   nm     spellings of the name: 0 "Content-Length", 1 "content-length"
+\*   dups   allowed <<first, second>> value pairs of a duplicated Content-Length
+\*   maxb   body bytes sent: 0..maxb                        bypos TRUE: i-th body byte is 96+i; FALSE: any of alpha
+\*   fragall, fragdepth   token types cut at every byte while fewer than fragdepth header lines were sent; every
+\*                        other token is cut after 1, L-2 and L-1 bytes (L-1: between CR and LF)
+\*   stallsl status-line kinds of the streams in which stalls are explored; stallfrags: also inside lines
+FramesQuick == [name |-> "frames", sl |-> {1, 2, 3, 4, 5}, hk |-> {1, 2, 3}, maxh |-> 1,
+                cl |-> {0, 1, 2, 3, GARB, HUGE, OVF}, nm |-> {0}, dups |-> {<<2, 2>>, <<1, 2>>, <<2, 1>>},
+                maxb |-> 3, bypos |-> TRUE, alpha |-> {120},
+                fragall |-> {"sl", "end", "h", "cl"}, fragdepth |-> 1, stallsl |-> {1}, stallfrags |-> FALSE]
+BodiesQuick == [name |-> "bodies", sl |-> {1}, hk |-> {1}, maxh |-> 1,
+                cl |-> {2, 4, 5}, nm |-> {0}, dups |-> {},
+                maxb |-> 4, bypos |-> FALSE, alpha |-> {120, 13, 10},
+                fragall |-> {"end"}, fragdepth |-> 0, stallsl |-> {1}, stallfrags |-> FALSE]
+FramesThorough == [name |-> "frames", sl |-> {1, 2, 3, 4, 5}, hk |-> {1, 2, 3, 4, 5}, maxh |-> 2,
+                cl |-> {0, 1, 2, 3, 4, 5, GARB, HUGE, OVF}, nm |-> {0, 1},
+                dups |-> {<<2, 2>>, <<1, 2>>, <<2, 1>>, <<3, 4>>, <<4, 3>>, <<0, 0>>, <<0, 3>>, <<2, GARB>>, <<GARB, 2>>, <<HUGE, 1>>},
+                maxb |-> 4, bypos |-> TRUE, alpha |-> {120},
+                fragall |-> {"sl", "end", "h", "cl"}, fragdepth |-> 1, stallsl |-> {1, 5}, stallfrags |-> TRUE]
+BodiesThorough == [name |-> "bodies", sl |-> {1}, hk |-> {1}, maxh |-> 1,
+                cl |-> {0, 2, 4, 5}, nm |-> {0}, dups |-> {},
+                maxb |-> 6, bypos |-> FALSE, alpha |-> {120, 13, 10},
+                fragall |-> {"end"}, fragdepth |-> 0, stallsl |-> {1}, stallfrags |-> FALSE]
+\* tiny families for the design-level counterexamples of the as-built client (HttpFraming_asbuilt*.cfg)
+TinyCL == [name |-> "tiny", sl |-> {1}, hk |-> {1}, maxh |-> 0, cl |-> {0, 1, 2, 3, GARB, HUGE, OVF}, nm |-> {0}, dups |-> {},
+           maxb |-> 2, bypos |-> TRUE, alpha |-> {120}, fragall |-> {"end"}, fragdepth |-> 0, stallsl |-> {1}, stallfrags |-> FALSE]
+TinyNoStatus == [name |-> "tiny", sl |-> {5}, hk |-> {1}, maxh |-> 1, cl |-> {0, 2}, nm |-> {0}, dups |-> {},
+           maxb |-> 1, bypos |-> TRUE, alpha |-> {120}, fragall |-> {"end"}, fragdepth |-> 0, stallsl |-> {1}, stallfrags |-> FALSE]
+FamsQuick == {FramesQuick, BodiesQuick}
+FamsThorough == {FramesThorough, BodiesThorough}
+FamsBodiesQuick == {BodiesQuick}
+FamsTinyCL == {TinyCL}
+FamsTinyNoStatus == {TinyNoStatus}
+AllCLVals == (0..6) \cup {GARB, HUGE, OVF}
+AllCLNames == {0, 1}
 
 Chars == " !\"#$%&'()*+,-./0123456789:;<=>?@ABCDEFGHIJKLMNOPQRSTUVWXYZ[\\]^_`abcdefghijklmnopqrstuvwxyz{|}~"
 Ascii(s) == [i \in 1..Len(s) |-> CHOOSE c \in 32..126 : SubSeq(Chars, c - 31, c - 31) = SubSeq(s, i, i)]
@@ -83,7 +102,7 @@ CLValTxt(v) == CASE v = GARB -> "abc" [] v = HUGE -> "4294967296" [] v = OVF -> 
                  [] OTHER -> ToString(v)
 CLNum(v) == IF v = HUGE THEN HugeNum ELSE v
 CLTxt(v, nm) == (IF nm = 0 THEN "Content-Length" ELSE "content-length") \o ": " \o CLValTxt(v)
-CLBytes == [p \in CLVals \X CLNames |-> Ascii(CLTxt(p[1], p[2])) \o CRLF]
+CLBytes == [p \in AllCLVals \X AllCLNames |-> Ascii(CLTxt(p[1], p[2])) \o CRLF]
 
 \* tokens: [t, a, b]  t = "sl" (a = kind) | "h" (a = kind) | "cl" (a = value code, b = name) | "end" | "b" (a = byte)
 Tok(t, a, b) == [t |-> t, a |-> a, b |-> b]
@@ -105,7 +124,8 @@ IsBodyTok(k) == k.t = "b"
 BodyOf(s) == LET bs == SelectSeq(s, IsBodyTok) IN [i \in 1..Len(bs) |-> bs[i].a]
 IsCLTok(k) == k.t = "cl"
 
-VARIABLES sent,    \* tokens completely delivered so far
+VARIABLES fam,     \* the family this behaviour belongs to (never changes)
+          sent,    \* tokens completely delivered so far
           frag,    \* bytes of a partially delivered next token (set when the stream ends)
           chan,    \* "open" | "closed" | "stalled"
           cph,     \* client: "status" | "headers" | "body"
@@ -114,29 +134,29 @@ VARIABLES sent,    \* tokens completely delivered so far
           cbd,     \* client: body bytes received
           done,    \* the client has answered
           result   \* design -> its answer
-vars == <<sent, frag, chan, cph, csl, clines, cbd, done, result>>
+vars == <<fam, sent, frag, chan, cph, csl, clines, cbd, done, result>>
 
 Designs == Conforming \cup Others
 
 \* ---- the peer's grammar ---------------------------------------------------------
 HasEnd(s) == \E i \in DOMAIN s : s[i].t = "end"
 NextToks(s) ==
-  IF s = <<>> THEN {Tok("sl", k, 0) : k \in SLKinds}
+  IF s = <<>> THEN {Tok("sl", k, 0) : k \in fam.sl}
   ELSE IF ~HasEnd(s) THEN
     LET hs == HdrToks(s)
         nh == Len(SelectSeq(hs, LAMBDA k : k.t = "h"))
         cls == SelectSeq(hs, IsCLTok)
-    IN (IF nh < MaxHdrs THEN {Tok("h", k, 0) : k \in HdrKinds} ELSE {})
-       \cup (IF cls = <<>> THEN {Tok("cl", v, nm) : v \in CLVals, nm \in CLNames}
-             ELSE IF Len(cls) = 1 THEN {Tok("cl", v, cls[1].b) : v \in {w \in CLVals : <<cls[1].a, w>> \in CLDups}}
+    IN (IF nh < fam.maxh THEN {Tok("h", k, 0) : k \in fam.hk} ELSE {})
+       \cup (IF cls = <<>> THEN {Tok("cl", v, nm) : v \in fam.cl, nm \in fam.nm}
+             ELSE IF Len(cls) = 1 THEN {Tok("cl", v, cls[1].b) : v \in {w \in AllCLVals : <<cls[1].a, w>> \in fam.dups}}
              ELSE {})
        \cup {Tok("end", 0, 0)}
   ELSE LET nb == Len(BodyOf(s)) IN
-       IF nb >= MaxBody THEN {}
-       ELSE IF BodyByPos THEN {Tok("b", 97 + nb, 0)} ELSE {Tok("b", x, 0) : x \in BodyAlpha}
+       IF nb >= fam.maxb THEN {}
+       ELSE IF fam.bypos THEN {Tok("b", 97 + nb, 0)} ELSE {Tok("b", x, 0) : x \in fam.alpha}
 
 FragCuts(k, s) == LET L == Len(TokBytes(k)) IN
-                  IF k.t \in FragAll /\ Len(HdrToks(s)) < FragDepth THEN 1..(L - 1)
+                  IF k.t \in fam.fragall /\ Len(HdrToks(s)) < fam.fragdepth THEN 1..(L - 1)
                   ELSE {1, L - 2, L - 1} \cap (1..(L - 1))
 \* proper, non-empty prefixes of the next token (as bytes: equal prefixes coincide), or nothing
 FragSet(s) == {<<>>} \cup UNION {{SubSeq(TokBytes(k), 1, j) : j \in FragCuts(k, s)} : k \in NextToks(s)}
@@ -215,7 +235,8 @@ Decide(v, end) == CASE v = "enforce" -> DecEnforce(end)
 
 \* ---- actions ------------------------------------------------------------------------
 NoResult == [v \in Designs |-> Err]
-Init == /\ sent = <<>> /\ frag = <<>> /\ chan = "open"
+Init == /\ fam \in Fams
+        /\ sent = <<>> /\ frag = <<>> /\ chan = "open"
         /\ cph = "status" /\ csl = 0 /\ clines = <<>> /\ cbd = <<>>
         /\ done = FALSE /\ result = NoResult
 
@@ -228,57 +249,59 @@ ClientRecv(k) ==
 
 SendStatus == /\ chan = "open" /\ sent = <<>>
               /\ \E k \in NextToks(sent) : sent' = Append(sent, k) /\ ClientRecv(k)
-              /\ UNCHANGED <<frag, chan, done, result>>
+              /\ UNCHANGED <<fam, frag, chan, done, result>>
 SendHeader == /\ chan = "open" /\ sent # <<>> /\ ~HasEnd(sent)
               /\ \E k \in {x \in NextToks(sent) : x.t = "h"} : sent' = Append(sent, k) /\ ClientRecv(k)
-              /\ UNCHANGED <<frag, chan, done, result>>
+              /\ UNCHANGED <<fam, frag, chan, done, result>>
 SendContentLength ==
               /\ chan = "open" /\ sent # <<>> /\ ~HasEnd(sent)
               /\ \E k \in {x \in NextToks(sent) : x.t = "cl"} : sent' = Append(sent, k) /\ ClientRecv(k)
-              /\ UNCHANGED <<frag, chan, done, result>>
+              /\ UNCHANGED <<fam, frag, chan, done, result>>
 SendEnd ==    /\ chan = "open" /\ sent # <<>> /\ ~HasEnd(sent)
               /\ LET k == Tok("end", 0, 0) IN sent' = Append(sent, k) /\ ClientRecv(k)
-              /\ UNCHANGED <<frag, chan, done, result>>
+              /\ UNCHANGED <<fam, frag, chan, done, result>>
 SendBodyByte == /\ chan = "open" /\ HasEnd(sent)
               /\ \E k \in NextToks(sent) : sent' = Append(sent, k) /\ ClientRecv(k)
-              /\ UNCHANGED <<frag, chan, done, result>>
+              /\ UNCHANGED <<fam, frag, chan, done, result>>
 
 \* the peer closes, possibly in the middle of the next token; the client sees EOF and answers
 Close == /\ chan = "open"
          /\ LET r == [v \in Designs |-> Decide(v, "close")] IN
             \E f \in FragSet(sent) : frag' = f /\ result' = r
          /\ chan' = "closed" /\ done' = TRUE
-         /\ UNCHANGED <<sent, cph, csl, clines, cbd>>
+         /\ UNCHANGED <<fam, sent, cph, csl, clines, cbd>>
 
 \* the peer goes silent without closing ...
-StallOK == IF sent = <<>> THEN 1 \in StallSL ELSE sent[1].a \in StallSL
+StallOK == IF sent = <<>> THEN 1 \in fam.stallsl ELSE sent[1].a \in fam.stallsl
 Stall == /\ chan = "open" /\ StallOK
-         /\ \E f \in (IF StallFrags THEN FragSet(sent) ELSE {<<>>}) : frag' = f
+         /\ \E f \in (IF fam.stallfrags THEN FragSet(sent) ELSE {<<>>}) : frag' = f
          /\ chan' = "stalled"
-         /\ UNCHANGED <<sent, cph, csl, clines, cbd, done, result>>
+         /\ UNCHANGED <<fam, sent, cph, csl, clines, cbd, done, result>>
 \* ... and the client's overall timeout fires
 Timeout == /\ chan = "stalled" /\ ~done
            /\ done' = TRUE
            /\ result' = [v \in Designs |-> Decide(v, "stall")]
-           /\ UNCHANGED <<sent, frag, chan, cph, csl, clines, cbd>>
+           /\ UNCHANGED <<fam, sent, frag, chan, cph, csl, clines, cbd>>
 
 Next == SendStatus \/ SendHeader \/ SendContentLength \/ SendEnd \/ SendBodyByte \/ Close \/ Stall \/ Timeout
 Spec == Init /\ [][Next]_vars
 
 \* ---- the observation of the wire (independent of the client variables) -----------------
+CLNumsOf(hs) == {CLNum(hs[j].a) : j \in {i \in DOMAIN hs : hs[i].t = "cl" /\ hs[i].a \notin {GARB, OVF}}}
+CLBadOf(hs) == \E j \in DOMAIN hs : hs[j].t = "cl" /\ hs[j].a \in {GARB, OVF}
 Obs == LET hs == HdrToks(sent)
-           miss == sent # <<>> /\ SLTab[sent[1].a].missing
-           good == {j \in DOMAIN hs : hs[j].t = "cl" /\ hs[j].a \notin {GARB, OVF}}
+           miss == sent # <<>> /\ SLTab[sent[1].a].missing /\ hs # <<>>
+           rest == IF miss THEN Tail(hs) ELSE <<>>
        IN [hc |-> HasEnd(sent),
            status |-> IF sent = <<>> THEN NULL ELSE SLTab[sent[1].a].code,
            hdrs |-> WfHdrSeq(hs),
-           clnums |-> {CLNum(hs[j].a) : j \in good},
-           clbad |-> \E j \in DOMAIN hs : hs[j].t = "cl" /\ hs[j].a \in {GARB, OVF},
+           clnums |-> CLNumsOf(hs),
+           clbad |-> CLBadOf(hs),
            allwf |-> \A j \in DOMAIN hs : IsWfTok(hs[j]),
            body |-> BodyOf(sent),
            end |-> IF chan = "stalled" THEN "stall" ELSE "close",
-           alt |-> IF miss /\ hs # <<>> THEN LineNum(hs[1]) ELSE NULL,
-           althdrs |-> IF miss /\ hs # <<>> THEN WfHdrSeq(Tail(hs)) ELSE <<>>]
+           alt |-> IF miss THEN LineNum(hs[1]) ELSE NULL,
+           althdrs |-> WfHdrSeq(rest), altclnums |-> CLNumsOf(rest), altclbad |-> CLBadOf(rest)]
 
 \* ---- properties ---------------------------------------------------------------------
 TypeOK == /\ chan \in {"open", "closed", "stalled"} /\ cph \in {"status", "headers", "body"}
@@ -299,12 +322,11 @@ NoPanicNoHang == done => \A v \in Conforming : result[v].k \in {"ok", "err"}
 \* ---- case emission --------------------------------------------------------------------
 \* the Ok shapes the contract allows under deviation set D, in a form the driver can match
 \* by plain membership: status, headers to be included, allowed bodies
-DStatus(o, D) == IF o.status # NULL THEN (IF "hdr_as_status" \in D THEN NULL ELSE o.status)
-                 ELSE IF "hdr_as_status" \in D THEN o.alt ELSE NULL
-DBodies(o, D) == {b \in BodyChoices(o) : "ignore_cl" \in D \/ PinnedCL(o) = NULL \/ Len(b) >= PinnedCL(o)}
-HasEntry(o, D) == o.hc /\ DStatus(o, D) # NULL /\ DBodies(o, D) # {}
-Entry(o, D) == [d |-> D, status |-> DStatus(o, D),
-                hdrs |-> IF o.status # NULL THEN o.hdrs ELSE o.althdrs, bodies |-> DBodies(o, D)]
+DBodies(w, D) == {b \in BodyChoices(w) : "ignore_cl" \in D \/ PinnedCL(w) = NULL \/ Len(b) >= PinnedCL(w)}
+\* a deviation set that does not change the view adds nothing over the smaller set
+Relevant(o, D) == "hdr_as_status" \in D => View(o, D) # o
+HasEntry(o, D) == o.hc /\ Relevant(o, D) /\ View(o, D).status # NULL /\ DBodies(View(o, D), D) # {}
+Entry(o, D) == LET w == View(o, D) IN [d |-> D, status |-> w.status, hdrs |-> w.hdrs, bodies |-> DBodies(w, D)]
 Matches(r, e) == r.status = e.status /\ HdrsIncluded(e.hdrs, r.hdrs) /\ r.body \in e.bodies
 \* the emitted entries say exactly what Allowed says (checked on every design's answer, mutants included)
 EntriesSound == done => LET o == Obs
@@ -315,7 +337,7 @@ EntriesSound == done => LET o == Obs
 
 Brief(r) == [k |-> r.k, status |-> r.status, body |-> r.body, nh |-> Len(r.hdrs)]
 Emit == done => LET o == Obs IN
-                EmitCase([bytes |-> Flatten(sent) \o frag,
+                EmitCase([fam |-> fam.name, bytes |-> Flatten(sent) \o frag,
                           end |-> o.end,
                           o |-> o,
                           entries |-> {Entry(o, D) : D \in {E \in SUBSET Devs : HasEntry(o, E)}},
